@@ -72,6 +72,17 @@ func genC20(g *gen, tier string) *Scenario {
 	if nWaiters > 1 {
 		sc.Family = "concurrent-waiters"
 	}
+	if g.pct(10) {
+		// the evictions one write causes: a full cache of unit entries, one heavy write, Wait
+		sc.Family = "heavy-displacement"
+		sc.Cache.Kind = "plain"
+		sc.Cache.MaxSize = int64(pick(g, 100, 300, 1000))
+		sc.Cache.WriteChan, sc.Cache.WriteBuf = pick(g, 8, 64), pick(g, 16, 128)
+		heavy := sc.Cache.MaxSize * int64(pick(g, 30, 50, 80, 100)) / 100
+		sc.Clients = [][]Op{{{Kind: "fill", Key: 10000, N: int(sc.Cache.MaxSize)}, {Kind: "wait"}, {Kind: "set", Key: 10000 + g.n(int(sc.Cache.MaxSize)), Cost: heavy}, {Kind: "wait"}}}
+		sc.Sim.AtomicFiles = nil
+		sc.Sim.MaxSteps = 3000000
+	}
 	return sc
 }
 
